@@ -167,7 +167,8 @@ def fam_file(seed, tier):
             yield dict(order=list(order), dec="+".join(dec), sk=bytes(rnd.randrange(1, 256) for _ in range(16 - z)) + bytes(z),
                        sel=rnd.randrange(4), version=rnd.choice([0, 1, 127, 128, 255]),
                        code=bytes(rnd.randrange(256) for _ in range(8)), ckey=bytes(rnd.randrange(256) for _ in range(16)),
-                       cfg=bytes(rnd.randrange(256) for _ in range(rnd.choice([1, 7, 16, 33]))))
+                       cfg=bytes(rnd.randrange(256) for _ in range(rnd.choice([1, 7, 16, 33]))),
+                       cfg_first=rnd.random() < 0.5)
 
 
 def _file_proof(vc, order):
@@ -202,7 +203,9 @@ def _file_proof(vc, order):
         rcpt = bec2format.generate_private_ecc_key()
         cfg = vc.bytes("cfg")
         bf3 = B.Bf3File({"a": "b"}, [B.Bf3Component({0xC3: b"\x02"}, b"firmware-image")])
-        bf3.components.append(B.Bf3Component({0xC3: b"\x03", 0xC2: b"\x02", 0xC1: b"\x03", 0xC5: b"\x01"}, cfg, len(cfg),
+        # the encrypted configuration component last (as set_config leaves it) or FOLLOWED by a plain component
+        bf3.components.insert(0 if vc.inputs.get("cfg_first") else 1,
+                              B.Bf3Component({0xC3: b"\x03", 0xC2: b"\x02", 0xC1: b"\x03", 0xC5: b"\x01"}, cfg, len(cfg),
                                              encrypt_by_session_key=True))
     blocks = {"cust": lambda: M.InitCustKeyAuthBlock(), "ecc": lambda: M.InitEccAuthBlock(sel),
               "upd": lambda: M.UpdateAuthBlock(code, version)}
@@ -251,7 +254,9 @@ def _file_proof(vc, order):
         vc.prove("read.body-handed-over-at-header-end-with-session-key",
                  len(fb) == 1 and fb[0][1] == vc.len(binary) - vc.len(body) and fb[0][2] == sk and fb[0][3] == body)
     else:
-        comps = g.bf3file.components
+        comps = list(g.bf3file.components)
+        if vc.inputs.get("cfg_first"):
+            comps.reverse()
         cfg = vc.inputs["cfg"]
         vc.prove("read.same-content", len(comps) == 2 and comps[0].blob == b"firmware-image" and
                  comps[1].blob[:comps[1].actual_len] == cfg and comps[1].encrypt_by_session_key is True)
@@ -266,3 +271,13 @@ for _o in ORDERS:
                      (MOD, "Bec2File.unpack_auth_blocks"), (MOD, "Bec2File.__init__")],
           family=(lambda o: (lambda seed, tier: (d for d in fam_file(seed, tier) if tuple(d["order"]) == o)))(_o),
           thorough_only=len(_o) == 2)(_p)
+
+
+# the BF3 body inside a BEC2 file: the file proofs above hand the body over to Bf3File.to_binary / from_binary by contract
+# ("the body is the layout of the components at that offset under that key" / "the reader returns what the layout holds").
+# Those contracts are proved under C03 / C01 and are obligations of this property too.
+from pyvc.harness import reuse as _reuse
+from contracts import C01 as _C01x, C03 as _C03x  # noqa: E402,F401
+_reuse("C03/dir_to_binary", "C02/body.directory=layout(offsets-advance-by-stored-length)")
+_reuse("C03/to_binary", "C02/body.to_binary=layout")
+_reuse("C01/from_binary(layout(f))=f[mac-check-on]", "C02/body.from_binary(layout(f))=f")
